@@ -255,10 +255,17 @@ class Expression:
             elif current_token in self.unary_operators:
                 stack.append(current_token)
             elif current_token == "sizeof":
-                if len(tmp_expression) < i + 3 or (tmp_expression[i + 1] != "(" or tmp_expression[i + 3] != ")"):
+                if len(tmp_expression) < i + 3 or tmp_expression[i + 1] != "(":
                     raise ExpressionParserError("Invalid sizeof operation")
-                queue.append(len(self.cstruct.resolve(tmp_expression[i + 2])))
-                i += 3
+                # A type name can consist of several words (unsigned int, long long)
+                end = i + 2
+                while end < len(tmp_expression) and tmp_expression[end] != ")":
+                    end += 1
+                words = tmp_expression[i + 2 : end]
+                if end == len(tmp_expression) or not words or (len(words) > 1 and not all(w.isidentifier() for w in words)):
+                    raise ExpressionParserError("Invalid sizeof operation")
+                queue.append(len(self.cstruct.resolve(" ".join(tmp_expression[i + 2 : end]))))
+                i = end
             elif current_token in operators:
                 while (
                     len(stack) != 0 and stack[-1] != "(" and (self.precedence(stack[-1], current_token))
